@@ -25,7 +25,7 @@
 (* Parameters p: the 18-vector of Params.tla.  Tokens <<0,b,0,0>> literal, *)
 (* <<1,len,dist,irr>> reference.  Positions are 0-based, plain is 1-based. *)
 (***************************************************************************)
-EXTENDS Naturals, Sequences, Bitwise, HashTables
+EXTENDS Naturals, Sequences, SequencesExt, Bitwise, HashTables
 
 MinMatch == 3
 MaxMatch == 258
@@ -101,27 +101,37 @@ Candidates(d, pos, off, p) ==
        \o ChainOf(d.chains, d.H[pos + 1], pos)
   ELSE (IF off = 1 /\ d.H[pos + 1] = d.H[pos + 2] THEN <<1>> ELSE <<>>) \o ChainOf(d.chains, d.H[pos + off + 1], pos + off)
 
-\* common prefix of the text at start and at start - dist, at most maxlen
-RECURSIVE Common(_, _, _, _, _)
+\* common prefix of the text at start and at start - dist, at most maxlen (k is always 0).  Written
+\* with native sequence comparisons instead of a recursion: a long run of one byte makes every
+\* candidate of a long chain agree over 257 bytes, and TLC's deep recursion is quadratically slow
 Common(plain, start, dist, k, maxlen) ==
-  IF k = maxlen \/ plain[start + k + 1] # plain[start - dist + k + 1] THEN k
-  ELSE Common(plain, start, dist, k + 1, maxlen)
+  IF SubSeq(plain, start + 1, start + maxlen) = SubSeq(plain, start - dist + 1, start - dist + maxlen) THEN maxlen
+  ELSE CHOOSE n \in 0..(maxlen - 1) :
+         /\ plain[start + n + 1] # plain[start - dist + n + 1]
+         /\ SubSeq(plain, start + 1, start + n) = SubSeq(plain, start - dist + 1, start - dist + n)
 
 \* ---- match_token_offset: result <<len, dist>> or <<0, 0>>
 NoRef == <<0, 0>>
-RECURSIVE Walk(_, _, _, _, _, _, _, _, _, _, _)
-\* c: candidates, i: index, first: is this the first candidate
+\* The walk over the candidates c (distances, in chain order) is a fold with an early exit, not a
+\* recursion: chains are thousands of entries long on repetitive data, and TLC's recursion costs
+\* time quadratic in its depth.  acc = [best, chain (budget left, 0 = unlimited), st].
+Indices(c) == [i \in 1..Len(c) |-> i]
+WalkTry(acc, dist, ml, maxlen, nice, d3) ==
+  IF ml > acc.best[1] /\ ml >= MinMatch
+  THEN (IF (ml >= nice /\ (ml > 3 \/ dist <= d3)) \/ ml >= maxlen \/ acc.chain = 1
+        THEN [best |-> <<ml, dist>>, chain |-> acc.chain, st |-> "done"]        \* good enough / cannot get longer / budget spent
+        ELSE [best |-> <<ml, dist>>, chain |-> IF acc.chain = 0 THEN 0 ELSE acc.chain - 1, st |-> "go"])
+  ELSE (IF acc.chain = 1 THEN [acc EXCEPT !.st = "done"]
+        ELSE [acc EXCEPT !.chain = IF acc.chain = 0 THEN 0 ELSE acc.chain - 1])
+WalkStep(plain, c, start, maxlen, nice, d3, hop0, hop1, acc, i) ==
+  IF acc.st # "go" THEN acc
+  ELSE IF i = 1 /\ c[i] > hop0 THEN [acc EXCEPT !.st = "noref"]                  \* DistanceLargerThanHop0
+  ELSE IF i > 1 /\ c[i] > hop1 THEN [acc EXCEPT !.st = "done"]
+  ELSE WalkTry(acc, c[i], Common(plain, start, c[i], 0, maxlen), maxlen, nice, d3)
+WalkEnd(acc) == IF acc.st = "noref" THEN NoRef ELSE acc.best
 Walk(plain, c, i, start, maxlen, nice, d3, hop0, hop1, best, chain) ==
-  IF i > Len(c) THEN best
-  ELSE IF i = 1 /\ c[i] > hop0 THEN NoRef                                \* DistanceLargerThanHop0
-  ELSE IF i > 1 /\ c[i] > hop1 THEN best
-  ELSE LET ml == Common(plain, start, c[i], 0, maxlen)
-           better == ml > best[1] /\ ml >= MinMatch
-           nb == IF better THEN <<ml, c[i]>> ELSE best
-       IN IF better /\ ml >= nice /\ (ml > 3 \/ c[i] <= d3) THEN nb
-          ELSE IF better /\ ml >= maxlen THEN nb                          \* cannot get longer
-          ELSE IF chain = 1 THEN nb                                        \* max_chain exhausted
-          ELSE Walk(plain, c, i + 1, start, maxlen, nice, d3, hop0, hop1, nb, IF chain = 0 THEN 0 ELSE chain - 1)
+  WalkEnd(FoldLeft(LAMBDA acc, k : WalkStep(plain, c, start, maxlen, nice, d3, hop0, hop1, acc, k),
+                   [best |-> best, chain |-> chain, st |-> "go"], Indices(c)))
 \* (chain = 0 means no limit: a depth of 0 wraps around in the release build)
 
 MatchAt(plain, d, pos, off, prevlen, depth, p) ==
@@ -156,24 +166,31 @@ Predict(plain, d, s, p) ==
 
 \* ---- calculate_hops: the distance of the real reference as the number of candidates, up to
 \* and including it, at which the text agrees over the reference's whole length (0: not found)
-RECURSIVE HopsWalk(_, _, _, _, _, _, _, _, _)
+\* acc = [hops, chain, st, res]
+HopsStep(plain, c, pos, tlen, tdist, maxdist, acc, i) ==
+  IF acc.st # "go" THEN acc
+  ELSE IF c[i] > maxdist THEN [acc EXCEPT !.st = "done"]
+  ELSE LET agrees == Common(plain, pos, c[i], 0, tlen) >= tlen IN
+       IF c[i] = tdist THEN [acc EXCEPT !.st = "done", !.res = acc.hops + (IF agrees THEN 1 ELSE 0)]
+       ELSE IF c[i] > tdist \/ acc.chain <= 1 THEN [acc EXCEPT !.st = "done"]
+       ELSE [acc EXCEPT !.hops = acc.hops + (IF agrees THEN 1 ELSE 0), !.chain = acc.chain - 1]
 HopsWalk(plain, c, i, pos, tlen, tdist, maxdist, hops, chain) ==
-  IF i > Len(c) \/ c[i] > maxdist THEN 0
-  ELSE LET h2 == hops + (IF Common(plain, pos, c[i], 0, tlen) >= tlen THEN 1 ELSE 0) IN
-       IF c[i] = tdist THEN h2
-       ELSE IF c[i] > tdist \/ chain <= 1 THEN 0
-       ELSE HopsWalk(plain, c, i + 1, pos, tlen, tdist, maxdist, h2, chain - 1)
+  FoldLeft(LAMBDA acc, k : HopsStep(plain, c, pos, tlen, tdist, maxdist, acc, k),
+           [hops |-> hops, chain |-> chain, st |-> "go", res |-> 0], Indices(c)).res
 Hops(plain, d, pos, tlen, tdist, p) ==
   IF Mn(Len(plain) - pos, MaxMatch) < tlen THEN 0
   ELSE HopsWalk(plain, Candidates(d, pos, 0, p), 1, pos, tlen, tdist, Mn(pos, P2(p[4])), 0, 65535)
 
 \* ---- hop_match, the inverse: the distance of the hops-th agreeing candidate (0: none)
-RECURSIVE HopMatchWalk(_, _, _, _, _, _, _, _)
+HopMatchStep(plain, c, pos, len, maxdist, hops, acc, i) ==
+  IF acc.st # "go" THEN acc
+  ELSE IF c[i] > maxdist THEN [acc EXCEPT !.st = "done"]
+  ELSE IF Common(plain, pos, c[i], 0, len) >= len
+       THEN (IF acc.cur + 1 = hops THEN [acc EXCEPT !.st = "done", !.res = c[i]] ELSE [acc EXCEPT !.cur = acc.cur + 1])
+       ELSE acc
 HopMatchWalk(plain, c, i, pos, len, maxdist, hops, cur) ==
-  IF i > Len(c) \/ c[i] > maxdist THEN 0
-  ELSE LET c2 == cur + (IF Common(plain, pos, c[i], 0, len) >= len THEN 1 ELSE 0) IN
-       IF c2 > cur /\ c2 = hops THEN c[i]
-       ELSE HopMatchWalk(plain, c, i + 1, pos, len, maxdist, hops, c2)
+  FoldLeft(LAMBDA acc, k : HopMatchStep(plain, c, pos, len, maxdist, hops, acc, k),
+           [cur |-> cur, st |-> "go", res |-> 0], Indices(c)).res
 HopMatch(plain, d, pos, len, hops, p) ==
   IF Mn(Len(plain) - pos, MaxMatch) < len THEN 0
   ELSE HopMatchWalk(plain, Candidates(d, pos, 0, p), 1, pos, len, Mn(pos, P2(p[4])), hops, 0)
